@@ -1,5 +1,7 @@
 //! Harness CLI.  Executes, observes, projects and records; all judging is done by TLC on the traces
 //! (the fast path only compares records with what TLC printed).
+mod awalkrun;
+mod aworld;
 mod cfg;
 mod conc;
 mod concrun;
@@ -81,6 +83,13 @@ fn main() {
             println!("{}", faultrun::run(lts, &o, get("pairs", "50").parse().unwrap()));
             0
         }
+        "awalk" => {
+            let lts = lts::Lts::load(&PathBuf::from(get("lts", "")));
+            let cfgs: Vec<String> = get("cfgs", "mem").split(';').map(|s| s.to_string()).collect();
+            println!("{}", awalkrun::run(&lts, &cfgs, get("seed", "1").parse().unwrap(), get("trees", "10").parse().unwrap(), get("dense", "10").parse().unwrap(),
+                                         get("pair-frac", "0.2").parse().unwrap(), &PathBuf::from(get("out", "work/awalk"))));
+            0
+        }
         "emb" => {
             println!("{}", embrun::run(&PathBuf::from(get("out", "work/emb"))));
             0
@@ -98,6 +107,7 @@ fn main() {
                 lower_file: a.contains_key("lower-file"),
                 extreme: a.contains_key("extreme"),
                 depth: get("depth", "1").parse().unwrap(),
+                no_zero_read: a.contains_key("no-zero-read"),
             };
             println!("{}", handles::run(&lts, &o));
             0
